@@ -20,10 +20,20 @@ def main():
             tier = sys.argv[i + 1]; args = [x for x in args if x != tier]
         if a == "--props":
             extra = sys.argv[i + 1].split(","); args = [x for x in args if x != sys.argv[i + 1]]
+    jobs = 1
+    for i, a in enumerate(sys.argv):
+        if a == "-j":
+            jobs = int(sys.argv[i + 1]); args = [x for x in args if x != sys.argv[i + 1]]
+    args = [x for x in args if x != "-j"]
     names = [a for a in args if a != "--in-repo"] or sorted(d for d in os.listdir(os.path.join(V, "seeded")) if os.path.isdir(os.path.join(V, "seeded", d)))
     # by default work in a scratch worktree of /repo's HEAD so that nothing else using /repo is disturbed;
     # --in-repo applies the patch to /repo itself (git apply ... git checkout -- .) as the registered protocol does
     in_repo = "--in-repo" in sys.argv
+    if jobs > 1 and not in_repo:
+        # -j N: N scratch worktrees side by side (each child handles every N-th name)
+        rest = [a for a in sys.argv[1:] if a not in names and a != "-j" and a != str(jobs)]
+        procs = [subprocess.Popen([sys.executable, os.path.abspath(__file__)] + names[k::jobs] + rest) for k in range(jobs) if names[k::jobs]]
+        sys.exit(max(p.wait() for p in procs))
     tree = "/repo"
     if not in_repo:
         tree = "/tmp/seeded_wt_%d" % os.getpid()
